@@ -28,7 +28,7 @@ ASSUMPTIONS = [
     'explicit BINARY_EVENT/BINARY_ACK packets are built without bytes (every '
     'caller reaches the binary types by promotion)',
 ]
-BUDGET = {'quick': 4000, 'thorough': 400000}
+BUDGET = {'quick': 12000, 'thorough': 400000}
 FLOOR = {'quick': 500, 'thorough': 20000}
 WALL_CAP = {'quick': 200, 'thorough': 2400}
 
